@@ -81,6 +81,14 @@ def build_file(content, charset):
     return mf
 
 
+def pick_inner(cs, plan):
+    """Charset of the call nested inside the outer one: sometimes the default, sometimes another one."""
+    n = len(str(plan.get('content')))
+    if n % 3 == 0 and cs not in ('latin1',):
+        return 'latin1'
+    return 'utf-16' if cs not in ('utf-16', 'UTF-16') else 'utf-8'
+
+
 class LazyTrack(MidiTrack):
     """A track that, while it is being written, makes the application load another file (with another charset):
     a call nested inside a call. When the inner call ends, the outer call's charset must be in force again."""
@@ -346,18 +354,32 @@ class Charset(BaseEngine):
                                               f'{texts_of(back2) if tag == "ok" else back2!r}')
         if cs in ('utf-16', 'utf-32') and any(s for _, s in want):
             stats['probe:utf16_bom_roundtrip'] += 1
+        # the charset belongs to the load/save call only: not to an iteration of the loaded file that is under way
+        for how in ('iter', 'play'):
+            try:
+                it = iter(back) if how == 'iter' else back.play(meta_messages=True, now=lambda: 0.0)
+                next(it, None)
+            except Exception:
+                it = None
+            self.probe(f'load[{cs}] then-suspended-{how}', stats, own)
+            if it is not None and hasattr(it, 'close'):
+                it.close()
+        stats['probe:probe_during_suspended_iteration'] += 1
         if plan.get('nested') and want:
             # a load with another charset happens in the middle of our save (nested call)
-            inner_cs = 'utf-16' if cs not in ('utf-16', 'UTF-16') else 'utf-8'
+            inner_cs = pick_inner(cs, plan)
             inner = MidiFile(type=1, charset=inner_cs)
-            inner.tracks.append(MidiTrack([MetaMessage('text', text='in', time=0)]))
+            inner.tracks.append(MidiTrack([MetaMessage('text', text='iné', time=0)]))
             _, inner_img = self.do_save(inner, simdisk.SimDisk(), 'file')
             mf2 = build_file(plan['content'], cs)
+            inner_seen = []
 
             def nested_call(inner_img=inner_img, inner_cs=inner_cs, fail=plan['nested'] == 'fail'):
                 try:
-                    MidiFile(file=simdisk.SimDisk().handle_from(inner_img[:len(inner_img) - (3 if fail else 0)]),
-                             charset=inner_cs)
+                    kw = {} if inner_cs == 'latin1' else {'charset': inner_cs}
+                    got = MidiFile(file=simdisk.SimDisk().handle_from(inner_img[:len(inner_img) - (3 if fail else 0)]),
+                                   **kw)
+                    inner_seen.append(texts_of(got))
                 except Exception:
                     pass
             for ti, tr in enumerate(mf2.tracks):
@@ -375,6 +397,9 @@ class Charset(BaseEngine):
             if payloads2 != expect:
                 raise Violation('payload-bytes', f'charset {cs}, with a load in charset {inner_cs} nested inside the save: '
                                                  f'payloads {payloads2!r}, expected {expect!r}')
+            if inner_seen and inner_seen[0] != [('text', 'iné')]:
+                raise Violation('text-roundtrip', f'a file in charset {inner_cs} loaded while a save in charset {cs} was in '
+                                                  f'progress gave texts {inner_seen[0]!r}')
             self.probe(f'save[{cs}] nested', stats, own)
             stats['fault:nested_call'] += 1
         stats['roundtrips'] += 1
@@ -546,7 +571,7 @@ class Charset(BaseEngine):
 
     def probe_names(self, prop):
         return ['failed_load_then_probe', 'failed_save_then_probe', 'leak_visible_only_after_next_call',
-                'utf16_bom_roundtrip']
+                'utf16_bom_roundtrip', 'probe_during_suspended_iteration']
 
 
 ENGINE = Charset()
